@@ -48,6 +48,11 @@ type (
 	}
 	// Var reads a name (nearest binding); an unbound name is a runtime error.
 	Var struct{ Name string }
+	// Elem is Name[I]: element I of the list the name holds (constant, in range).
+	Elem struct {
+		Name string
+		I    int
+	}
 	// Member is X.Name; X must evaluate to a module.
 	Member struct {
 		X    Expr
@@ -111,6 +116,7 @@ func (Str) isExpr()         {}
 func (List) isExpr()        {}
 func (MapLit) isExpr()      {}
 func (Var) isExpr()         {}
+func (Elem) isExpr()        {}
 func (Member) isExpr()      {}
 func (Bin) isExpr()         {}
 func (Not) isExpr()         {}
@@ -217,6 +223,13 @@ type (
 	}
 	// Defer is `defer call`; Call must be a Call, Probe, Show or Boom.
 	Defer struct{ Call Expr }
+	// SetElem is `Name[I] = Val`: stores into the list the name holds (lists are
+	// shared by reference, as in the language).
+	SetElem struct {
+		Name string
+		I    int
+		Val  Expr
+	}
 	// Close is `close(x)`; every channel of the IR (ChanOf) is already
 	// closed, so it fails with Go's "close of closed channel".
 	Close struct {
@@ -235,6 +248,7 @@ type (
 
 func (ExprStmt) isStmt() {}
 func (Assign) isStmt()   {}
+func (SetElem) isStmt()  {}
 func (VarDecl) isStmt()  {}
 func (If) isStmt()       {}
 func (Switch) isStmt()   {}
